@@ -86,3 +86,19 @@ PROPS["C34"] = dict(
     outside="per-topic parameter sets inserted through set_topic_config/mesh_n_for_topic (hashbrown insert is beyond CBMC here, DESIGN section 4); heartbeat itself (hash maps, RNG) — only its arithmetic precondition is checked",
     stubs=[TRACING, RANDSTATE], assumptions=[FORGET], hooks=[],
 )
+
+KADHOOK = "hook: libp2p_kad::verif_hooks (cfg(libp2p_verif)) thin wrappers: KeyBytes::verif_from_raw, bucket_index, bucket_range, bucket_visit_order, Table, record_wire_ttl, merged_expiry"
+NOSHA = "assume: keys are arbitrary 32-byte strings built without hashing (KeyBytes::verif_from_raw); SHA-256 itself is not executed"
+
+PROPS["C40"] = dict(
+    group="kad", files=["c40.rs"],
+    explanation=(
+        "KeyBytes::distance / for_distance, Distance ordering and ilog2, BucketIndex::new and BucketIndex::range "
+        "of libp2p-kad on fully symbolic 256-bit keys/distances (all 2^256 values each, up to three keys at once): "
+        "distance = XOR, zero iff equal, symmetric, unidirectional, triangle inequality (non-overflowing sums, as in "
+        "the repo's own test), for_distance inverts distance both ways, ilog2/bucket index = highest set bit, "
+        "range(i) brackets exactly the distances with index i. Oracle: independent 4x64-bit limb arithmetic."),
+    bounds="all 256-bit keys; bucket range checked for indices {0,63,64,255} (quick) + {1,7,8,127,128,191,192,254} (thorough) with the distance symbolic; unwind 34/70",
+    outside="Key<T>::new / KeyBytes::new (SHA-256 preimage hashing); bucket ranges for the other indices",
+    stubs=[TRACING], assumptions=[NOSHA], hooks=[KADHOOK],
+)
